@@ -52,7 +52,7 @@ impl<R> Reader<R> {
     }
 //@end
 
-//@extract reader::Reader::read_event_impl | src/reader/mod.rs :: impl<R> Reader<R> :: fn read_event_impl | serves=C01,C02,C03,C04,C08,C12,C16,C18 expand=read_event_impl n11=1,2
+//@extract reader::Reader::read_event_impl | src/reader/mod.rs :: impl<R> Reader<R> :: fn read_event_impl | serves=C01,C02,C03,C04,C05,C08,C12,C16,C18 expand=read_event_impl n11=1,2
     /// Read text into the given buffer, and return an event that borrows from
     /// either that buffer or from the input itself, based on the type of the
     /// reader.
@@ -283,7 +283,7 @@ impl<R> Reader<R> {
     }
 //@end
 
-//@extract reader::Reader::read_until_close | src/reader/mod.rs :: impl<R> Reader<R> :: fn read_until_close | serves=C01,C02,C03,C04,C08,C12,C16,C18 expand=read_until_close
+//@extract reader::Reader::read_until_close | src/reader/mod.rs :: impl<R> Reader<R> :: fn read_until_close | serves=C01,C02,C03,C04,C05,C08,C12,C16,C18 expand=read_until_close
     /// Private function to read until `>` is found. This function expects that
     /// it was called just after encounter a `<` symbol.
     fn read_until_close<'i, B>(&mut self, buf: B) -> (r: Result<Event<'i>, Error>)
@@ -390,7 +390,7 @@ pub type Result<T> = core::result::Result<T, Error>;
 pub type Span = core::ops::Range<u64>;
 
 impl<'a> Reader<&'a [u8]> {
-//@extract slice_reader::Reader::read_event | src/reader/slice_reader.rs :: impl<'a> Reader<&'a [u8]> :: fn read_event | serves=C01,C02,C03,C04,C08,C12,C16,C18
+//@extract slice_reader::Reader::read_event | src/reader/slice_reader.rs :: impl<'a> Reader<&'a [u8]> :: fn read_event | serves=C01,C02,C03,C04,C05,C08,C12,C16,C18
  fn read_event(&mut self) -> (r: Result<Event<'a>>)
         requires
             old(self).inv(),
@@ -409,7 +409,7 @@ impl<'a> Reader<&'a [u8]> {
     }
 //@end
 
-//@extract slice_reader::Reader::read_to_end | src/reader/slice_reader.rs :: impl<'a> Reader<&'a [u8]> :: fn read_to_end | serves=C03,C12 expand=read_to_end macro_files=src/reader/mod.rs
+//@extract slice_reader::Reader::read_to_end | src/reader/slice_reader.rs :: impl<'a> Reader<&'a [u8]> :: fn read_to_end | serves=C03,C05,C12 expand=read_to_end macro_files=src/reader/mod.rs
  #[verifier::loop_isolation(false)]
  #[verifier::allow_complex_invariants]
  pub(crate) fn read_to_end(&mut self, end: QName) -> (r: Result<Span>)
@@ -556,7 +556,7 @@ pub type Result<T> = core::result::Result<T, Error>;
 pub type Span = core::ops::Range<u64>;
 
 impl<R: BufRead> Reader<R> {
-//@extract buffered_reader::Reader::read_event_into | src/reader/buffered_reader.rs :: impl<R: BufRead> Reader<R> :: fn read_event_into | serves=C01,C02,C03,C04,C08,C12,C16,C18
+//@extract buffered_reader::Reader::read_event_into | src/reader/buffered_reader.rs :: impl<R: BufRead> Reader<R> :: fn read_event_into | serves=C01,C02,C03,C04,C05,C08,C12,C16,C18
  fn read_event_into<'b>(&mut self, buf: &'b mut Vec<u8>) -> (r: Result<Event<'b>>)
         requires
             old(self).inv(),
@@ -575,7 +575,7 @@ impl<R: BufRead> Reader<R> {
     }
 //@end
 
-//@extract buffered_reader::Reader::read_to_end_into | src/reader/buffered_reader.rs :: impl<R: BufRead> Reader<R> :: fn read_to_end_into | serves=C03,C12 expand=read_to_end macro_files=src/reader/mod.rs
+//@extract buffered_reader::Reader::read_to_end_into | src/reader/buffered_reader.rs :: impl<R: BufRead> Reader<R> :: fn read_to_end_into | serves=C03,C05,C12 expand=read_to_end macro_files=src/reader/mod.rs
  #[verifier::loop_isolation(false)]
  #[verifier::allow_complex_invariants]
  pub(crate) fn read_to_end_into(&mut self, end: QName, buf: &mut Vec<u8>) -> (r: Result<Span>)
